@@ -416,7 +416,42 @@ def r9(ctx):
                'writes no data member and returns no stored value: %s%s' % (ok, '' if ok else ' (%s)' % ', '.join(w + [fn.key(fn.nodes[r]['val']) for r in early])))
 
 
+def r10(ctx):
+    ctx.rule('C11.R10', 'only masters have a master number: getMasterNumber, evaluated from its typed AST for all 256 addresses (with '
+             'getMasterPartIndex evaluated the same way), is 0 for every address that is not one of the 25 masters and numbers '
+             'the masters 1..25 without repetition - a number handed to a non-master collides with that of a real master in the '
+             'message keys and the AUTO-SYN interval', minimum=1)
+    import tinyeval
+    fb = ctx.fb
+    fn = fb.fn('ebusd::getMasterNumber')
+    part = fb.fn('ebusd::getMasterPartIndex')
+    ctx.touch(fn)
+    ctx.touch(part)
+    parts = {0x0: 1, 0x1: 2, 0x3: 3, 0x7: 4, 0xF: 5}
+    bad = []
+    seen = {}
+    try:
+        def pidx(x):
+            return tinyeval.run(part, {}, [x & 0xff])
+        for a in range(256):
+            m = tinyeval.Machine(fn, {}, [a])
+            m.free = {'ebusd::getMasterPartIndex': pidx}
+            got = m.call()
+            master = (a & 0x0f) in parts and ((a & 0xf0) >> 4) in parts
+            if master:
+                if not (1 <= got <= 25) or got in seen:
+                    bad.append('master %02x has number %s%s' % (a, got, ' like %02x' % seen[got] if got in seen else ''))
+                seen[got] = a
+            elif got != 0 and len(bad) < 4:
+                bad.append('%02x is no master but has number %s' % (a, got))
+    except (tinyeval.Unknown, tinyeval.OutOfBounds) as e:
+        raise AnalysisBroken('C11.R10: getMasterNumber not evaluable (%s)' % e)
+    ctx.ob('C11.R10', fn, fn.body, not bad, 'master numbers of all 256 addresses', '0 for non-masters, 1..25 once each for masters: %s%s' % (
+        not bad, '' if not bad else ' - ' + '; '.join(bad[:4])))
+
+
 def run(ctx):
+    r10(ctx)
     r9(ctx)
     import rules.common as _cm
     ctx.rule('C11.R8', "a value is compared with a constant in the domain of its own type: in the sources of this property every comparison of a variable, member, element or call result with an integer constant (==, !=) has the constant inside the value range of the operand's own integer type before promotion - a symbol held in a signed char never equals 0xA9/0xAA/0xFE, so the escape, SYN or broadcast test behind it is dead for exactly the symbols it exists for", minimum=10)
